@@ -13,7 +13,7 @@ fn gen(r: &mut Rng, _cfg: &RunCfg) -> Case {
         0 => gen_text(r, TextDomain::Any),
         1 => {
             // space-run heavy
-            let m = Mix::swarm(r, &[Class::Ascii, Class::Wide, Class::Space, Class::Para, Class::Scalars]);
+            let m = Mix::swarm(r, &[Class::Ascii, Class::Wide, Class::Space, Class::Para, Class::Scalars, Class::Real, Class::Repeat]);
             let n = r.range(1, 16);
             let mut s = String::new();
             for _ in 0..n {
